@@ -1616,4 +1616,150 @@ Proof.
   intros Hlt. apply (Hquiet Hlt).
 Qed.
 
+(* ================================================================== *)
+(* 6.7 convergence                                                     *)
+(* ================================================================== *)
+
+Lemma rounds_split k : forall j L F,
+  rounds (k + j) L F = (x <- rounds k L F ;; rounds j (fst x) (snd x)).
+Proof.
+  induction k as [|k IH]; intros j L F; cbn [rounds Nat.add]; [reflexivity|].
+  destruct (pair_round L F) as [[L1 F1]|s]; cbn [bind fst snd]; [apply IH|reflexivity].
+Qed.
+
+Lemma mu_pos b pr : PrInv b pr -> 1 <= mu pr.
+Proof.
+  intros [P1 P2 P3 P4 P5 P6 P7 P8]. unfold mu.
+  generalize ((ll_last LL - matched pr) * (ll_last LL + 3)). intros X.
+  destruct (pr_state pr); lia.
+Qed.
+
+Lemma mu_big b pr : PrInv b pr -> matched pr < ll_last LL -> ll_last LL + 3 <= mu pr.
+Proof.
+  intros [P1 P2 P3 P4 P5 P6 P7 P8] Hlt. unfold mu.
+  assert ((ll_last LL + 3) * 1 <= (ll_last LL - matched pr) * (ll_last LL + 3)).
+  { rewrite N.mul_comm. apply N.mul_le_mono_r. lia. }
+  lia.
+Qed.
+
+(* any number of rounds keeps the invariant; matched never decreases, the measure never
+   increases *)
+Lemma rounds_mono n : forall Hb a L F pr L' F',
+  PairInv Hb a L F -> get_pr L f = Some pr -> rounds n L F = Ok (L', F') ->
+  exists a' pr', a <= a' /\ PairInv Hb a' L' F' /\ get_pr L' f = Some pr' /\
+    matched pr <= matched pr' /\ mu pr' <= mu pr.
+Proof.
+  induction n as [|n IH]; intros Hb a L F pr L' F' HI Hg H; cbn [rounds] in H.
+  - inversion H; subst L' F'. exists a, pr. split; [lia|]. split; [exact HI|]. split; [exact Hg|]. lia.
+  - inv_bind H. destruct x as [L1 F1]. cbn [fst snd] in H.
+    destruct (pair_round_inv Hb a L F L1 F1 pr HI Hg Hx) as (a1 & pr1 & La & HI1 & Hg1 & Hm1 & Hmu1 & _).
+    destruct (IH Hb a1 L1 F1 pr1 L' F' HI1 Hg1 H) as (a2 & pr2 & La2 & HI2 & Hg2 & Hm2 & Hmu2).
+    exists a2, pr2. split; [lia|]. split; [exact HI2|]. split; [exact Hg2|].
+    pose proof (mu_le_of_step _ _ Hmu1). lia.
+Qed.
+
+Lemma PairInv_matched_le Hb a L F pr :
+  PairInv Hb a L F -> get_pr L f = Some pr -> PrInv a pr /\ a <= ll_last LL.
+Proof.
+  intros HI Hg. destruct (pv_pr _ _ _ _ HI) as (pr0 & Hg0 & HP). rewrite Hg in Hg0.
+  inversion Hg0; subst pr0. split; [exact HP|].
+  apply (ag_lastL _ _ _ _ (fi_agree _ _ (pv_F _ _ _ _ HI))).
+Qed.
+
+(* three rounds from the tick that fires the heartbeat: the measure goes down *)
+Lemma progress_after_fire Hb a L F pr L' F' :
+  PairInv Hb a L F -> get_pr L f = Some pr -> matched pr < ll_last LL ->
+  Hb <= r_heartbeat_elapsed L + 1 ->
+  rounds 3 L F = Ok (L', F') ->
+  exists a' pr', PairInv Hb a' L' F' /\ get_pr L' f = Some pr' /\ mu pr' < mu pr.
+Proof.
+  intros HI Hg Hlt Hfire H. cbn [rounds] in H.
+  inv_bind H. destruct x as [L1 F1]. cbn [fst snd] in H.
+  inv_bind H. destruct x as [L2 F2]. cbn [fst snd] in H.
+  inv_bind H. destruct x as [L3 F3]. cbn [fst snd] in H. inversion H; subst L' F'; clear H.
+  destruct (pair_round_inv Hb a L F L1 F1 pr HI Hg Hx)
+    as (a1 & pr1 & _ & HI1 & Hg1 & Hm1 & Hmu1 & _ & _ & Hq1 & _).
+  pose proof (mu_le_of_step _ _ Hmu1) as Hle1.
+  destruct (pair_round_inv Hb a1 L1 F1 L2 F2 pr1 HI1 Hg1 Hx0)
+    as (a2 & pr2 & _ & HI2 & Hg2 & Hm2 & Hmu2 & _ & Hhb2 & _).
+  pose proof (mu_le_of_step _ _ Hmu2) as Hle2.
+  destruct (pair_round_inv Hb a2 L2 F2 L3 F3 pr2 HI2 Hg2 Hx1)
+    as (a3 & pr3 & _ & HI3 & Hg3 & Hm3 & Hmu3 & Hobl3 & _).
+  pose proof (mu_le_of_step _ _ Hmu3) as Hle3.
+  exists a3, pr3. split; [exact HI3|]. split; [exact Hg3|].
+  destruct (PairInv_matched_le _ _ _ _ _ HI1 Hg1) as [HP1 Ha1].
+  destruct (N.lt_ge_cases (matched pr1) (ll_last LL)) as [Hlt1|Hge1].
+  - destruct (Hhb2 (Hq1 Hfire) Hlt1) as [Hd|Hob]; [lia|].
+    specialize (Hobl3 Hob). lia.
+  - (* matched already reached the end in the first round *)
+    pose proof (mu_lt_matched a1 pr pr1 HP1 Ha1 ltac:(lia)). lia.
+Qed.
+
+(* d more rounds before the firing tick *)
+Lemma progress_within d : forall Hb a L F pr L' F',
+  PairInv Hb a L F -> get_pr L f = Some pr -> matched pr < ll_last LL ->
+  Hb <= r_heartbeat_elapsed L + 1 + N.of_nat d ->
+  rounds (d + 3) L F = Ok (L', F') ->
+  exists a' pr', PairInv Hb a' L' F' /\ get_pr L' f = Some pr' /\ mu pr' < mu pr.
+Proof.
+  induction d as [|d IH]; intros Hb a L F pr L' F' HI Hg Hlt Hd H.
+  - apply (progress_after_fire Hb a L F pr L' F' HI Hg Hlt); [cbn in Hd; lia|exact H].
+  - destruct (N.lt_ge_cases (r_heartbeat_elapsed L + 1) Hb) as [Hq|Hf].
+    + (* quiet round first *)
+      change (S d + 3)%nat with (S (d + 3)) in H. cbn [rounds] in H.
+      inv_bind H. destruct x as [L1 F1]. cbn [fst snd] in H.
+      destruct (pair_round_inv Hb a L F L1 F1 pr HI Hg Hx)
+        as (a1 & pr1 & _ & HI1 & Hg1 & Hm1 & Hmu1 & _ & _ & _ & Hh1).
+      pose proof (mu_le_of_step _ _ Hmu1) as Hle1. specialize (Hh1 Hq).
+      destruct (PairInv_matched_le _ _ _ _ _ HI1 Hg1) as [HP1 Ha1].
+      destruct (N.lt_ge_cases (matched pr1) (ll_last LL)) as [Hlt1|Hge1].
+      * destruct (IH Hb a1 L1 F1 pr1 L' F' HI1 Hg1 Hlt1 ltac:(lia) H) as (a' & pr' & A & B & C0).
+        exists a', pr'. split; [exact A|]. split; [exact B|]. lia.
+      * destruct (rounds_mono _ Hb a1 L1 F1 pr1 L' F' HI1 Hg1 H) as (a' & pr' & _ & A & B & _ & C0).
+        exists a', pr'. split; [exact A|]. split; [exact B|].
+        pose proof (mu_lt_matched a1 pr pr1 HP1 Ha1 ltac:(lia)). lia.
+    + (* the heartbeat fires at once: three rounds suffice, the rest only helps *)
+      replace (S d + 3)%nat with (3 + S d)%nat in H by lia. rewrite rounds_split in H.
+      inv_bind H. destruct x as [L1 F1]. cbn [fst snd] in H.
+      destruct (progress_after_fire Hb a L F pr L1 F1 HI Hg Hlt Hf Hx) as (a1 & pr1 & HI1 & Hg1 & Hmu1).
+      destruct (rounds_mono _ Hb a1 L1 F1 pr1 L' F' HI1 Hg1 H) as (a' & pr' & _ & A & B & _ & C0).
+      exists a', pr'. split; [exact A|]. split; [exact B|]. lia.
+Qed.
+
+(* once matched has reached the leader's last index it stays there *)
+Lemma converged_stays n Hb a L F pr L' F' :
+  PairInv Hb a L F -> get_pr L f = Some pr -> matched pr = ll_last LL ->
+  rounds n L F = Ok (L', F') ->
+  exists a' pr', PairInv Hb a' L' F' /\ get_pr L' f = Some pr' /\ matched pr' = ll_last LL.
+Proof.
+  intros HI Hg Hm H.
+  destruct (rounds_mono n Hb a L F pr L' F' HI Hg H) as (a' & pr' & _ & A & B & C0 & _).
+  exists a', pr'. split; [exact A|]. split; [exact B|].
+  destruct (PairInv_matched_le _ _ _ _ _ A B) as [HP' Ha']. pose proof (pi_b _ _ HP'). lia.
+Qed.
+
+(* the convergence argument: every Hb + 2 rounds the measure goes down *)
+Lemma pair_converges_measure n : forall Hb a L F pr N L' F',
+  PairInv Hb a L F -> get_pr L f = Some pr -> 1 <= Hb -> mu pr <= N.of_nat n ->
+  (N.to_nat (Hb + 2) * n <= N)%nat ->
+  rounds N L F = Ok (L', F') ->
+  exists a' pr', PairInv Hb a' L' F' /\ get_pr L' f = Some pr' /\ matched pr' = ll_last LL.
+Proof.
+  induction n as [|n IH]; intros Hb a L F pr N L' F' HI Hg HH Hmu HN H.
+  - destruct (PairInv_matched_le _ _ _ _ _ HI Hg) as [HP _]. pose proof (mu_pos _ _ HP). lia.
+  - destruct (PairInv_matched_le _ _ _ _ _ HI Hg) as [HP Ha].
+    destruct (N.eq_dec (matched pr) (ll_last LL)) as [Hm|Hm].
+    { eapply converged_stays; eassumption. }
+    assert (Hlt : matched pr < ll_last LL) by (pose proof (pi_b _ _ HP); lia).
+    set (d := N.to_nat (Hb - 1 - r_heartbeat_elapsed L)).
+    assert (Hk : (d + 3 <= N.to_nat (Hb + 2))%nat) by (subst d; lia).
+    assert (HN' : (d + 3 <= N)%nat) by lia.
+    replace N with ((d + 3) + (N - (d + 3)))%nat in H by lia. rewrite rounds_split in H.
+    inv_bind H. destruct x as [L1 F1]. cbn [fst snd] in H.
+    destruct (progress_within d Hb a L F pr L1 F1 HI Hg Hlt ltac:(subst d; lia) Hx)
+      as (a1 & pr1 & HI1 & Hg1 & Hmu1).
+    apply (IH Hb a1 L1 F1 pr1 (N - (d + 3))%nat L' F' HI1 Hg1 HH); [lia| |exact H].
+    nia.
+Qed.
+
 End Pair.
